@@ -756,5 +756,10 @@ fn get_max_packet_points(prototype: &[Record]) -> usize {
     let headers_size = DataPacketHeader::SIZE + bs_size_headers;
     let max_incomplete_bytes = prototype.len();
     let u16_max = u16::MAX as usize;
+    if point_size_bits == 0 {
+        // All values have a fixed value and need no space at all,
+        // so any number of points fits into a (never written) packet.
+        return u16_max;
+    }
     ((u16_max - headers_size - max_incomplete_bytes - SAFETY_MARGIN) * 8) / point_size_bits
 }
